@@ -141,7 +141,17 @@ def scripted_specs(scratch: Path, tier: str, seed: int, v=None):
     return specs, len(res.printed)
 
 
+def predict_ckpt_on_training(scratch: Path):
+    """NestedSampler.tla with CkptOnTraining = TRUE (what the code allows): which invariant goes."""
+    cfg = scratch / "ns_ckpt_on_training.cfg"
+    cfg.write_text(MODEL_CFG.format(nlive=3, maxrank=3, maxit=3, maxstops=1, capit=0)
+                   .replace("CkptOnTraining = FALSE", "CkptOnTraining = TRUE"))
+    res = run_tlc("NestedSampler", str(cfg), metadir=scratch / "m_ckpt_on_training", timeout=1200)
+    return "holds" if res.ok else res.error.replace("Error: ", "")
+
+
 def run_property(prop: str, tier: str, specs, *, level="model_checking", crash_is_violation=False, scripted=False,
+                 predict_mid_ckpt=False,
                  extra_cov=None, also=(), sig_of=None, capit=0, note="", ins_specs=()):
     """Run the corpus, validate, report P-failures of `prop` (and of `also`)."""
     seed = seed_from_env()
@@ -149,6 +159,10 @@ def run_property(prop: str, tier: str, specs, *, level="model_checking", crash_i
     with Scratch(prop.lower() + "-") as scratch:
         res, bounds = model_check(scratch, tier, capit)
         v.note(f"NestedSampler.tla: {res.distinct} states, {res.generated} transitions ({res.wall_s:.0f}s)")
+        prediction = None
+        if predict_mid_ckpt:
+            prediction = predict_ckpt_on_training(scratch)
+            v.note(f"NestedSampler.tla with checkpoint_on_training inside the critical section + kill: {prediction}")
         n_scripted = 0
         if scripted:
             sspecs, n_sim = scripted_specs(scratch, tier, seed, v)
@@ -275,6 +289,7 @@ def run_property(prop: str, tier: str, specs, *, level="model_checking", crash_i
             "model_states": res.distinct, "model_bounds": bounds,
             "histories": len(hs), "processes": sum(len(h["codes"]) for h in hs),
             "flow_trainings_validated": n_trainings,
+            "spec_prediction_checkpoint_on_training": prediction,
             "scripted_behaviours_replayed": n_scripted, "scripted_replays_equal_to_spec": n_replay_ok,
             "histories_not_completed": len(crashed),
             **{k: stats.get(k, 0) for k in ("events", "iterations", "populations", "population_batches_hooked",
